@@ -464,6 +464,7 @@ pub fn h_retain(n: usize, tab: [u8; 8]) {
 pub fn h_clear(n: usize, tab: [u8; 8]) {
     let st = sym_state(n, 40);
     let mut c = build(n, &st.heaps, st.max, tab, CAP);
+    tm::expect_no_grow(true);
     c.clear();
     let hashes = unsafe { HASHES };
     let exp = Exp { alive: [false; NMAX], tail: None, max: st.max };
